@@ -225,8 +225,9 @@ def build(tier, seed):
         for cname, mk in cfgs:
             members = []
             for k in (1, 2, 3, 5):
-                c = mk(d['gapless']); c = dict(c); c['split'] = k
-                members.append(('split=%d' % k, d, c))
+                for rp in (('last',) if k == 1 else ('last', 'first', 'middle')):
+                    c = mk(d['gapless']); c = dict(c); c['split'] = k; c['repr_pos'] = rp
+                    members.append(('split=%d repr=%s' % (k, rp), d, c))
             family('split', members)
     # non-interference families (C09): one feature with a fixed explicit mode, alone and next to every other feature and in
     # the full set - its own items must expand to the same tokens in every member
